@@ -56,7 +56,7 @@ pub mod shadow_std {
     }
 
     pub mod env {
-        pub use super::super::simenv::{args, args_os, current_dir, current_exe, temp_dir, var, var_os, vars};
+        pub use super::super::simenv::{args, args_os, current_dir, current_exe, set_current_dir, temp_dir, var, var_os, vars};
         pub use ::std::env::*;
     }
 
@@ -1133,7 +1133,7 @@ pub mod simfs {
             if w.removed.contains(&wk) {
                 return Some(Err(io::Error::new(io::ErrorKind::NotFound, "No such file or directory")));
             }
-            let key = w.image.normalise(p)?;
+            let key = w.image.normalise(&w.absolute(p))?;
             if let Some(d) = w.image.files.get(&key) {
                 return Some(Ok(Metadata {
                     is_dir: false,
@@ -1232,11 +1232,7 @@ pub mod simfs {
     }
 
     pub(crate) fn real_path(p: &Path) -> PathBuf {
-        if p.is_absolute() {
-            p.to_path_buf()
-        } else {
-            world::with(|w| w.image.crate_dir.join(p))
-        }
+        world::with(|w| w.absolute(p))
     }
 
     /// Only the repository's working tree is ever consulted for real (read-only: sources, manifests,
@@ -1323,7 +1319,7 @@ pub mod simfs {
 
     pub fn read_dir<P: AsRef<Path>>(p: P) -> io::Result<ReadDir> {
         let p = p.as_ref();
-        let key = world::with(|w| w.image.normalise(p));
+        let key = world::with(|w| w.image.normalise(&w.absolute(p)));
         let (label, sorted): (String, Vec<(String, bool)>) = match key {
             Some(k) => {
                 let children = world::with(|w| w.image.dirs.get(&k).cloned());
@@ -1423,7 +1419,7 @@ pub mod simfs {
         if world::with(|w| w.removed.contains(&wk)) {
             return Err(io::Error::new(io::ErrorKind::NotFound, "No such file or directory"));
         }
-        let key = world::with(|w| w.image.normalise(p));
+        let key = world::with(|w| w.image.normalise(&w.absolute(p)));
         match key {
             Some(k) => {
                 let f = world::with(|w| w.image.files.get(&k).cloned());
@@ -1515,7 +1511,11 @@ pub mod simfs {
     /// point and follows the stream's short-write / EINTR plan.
     pub struct File {
         data: Arc<Vec<u8>>,
-        pos: usize,
+        /// the file offset: one per open file description, shared by `try_clone`d handles and by
+        /// reads and writes, as in POSIX
+        cur: Arc<std::sync::atomic::AtomicUsize>,
+        /// opened in append mode: writes go to the end whatever the offset
+        append: bool,
         rng: Option<Rng>,
         consecutive_eintr: u32,
         /// Some(key) = opened for writing
@@ -1523,18 +1523,18 @@ pub mod simfs {
         /// short writes / EINTR plan of a file opened for writing
         wrng: Option<Rng>,
         consecutive_weintr: u32,
-        /// write position; None = append mode (always the end)
-        wpos: Option<usize>,
         _fd: Fd,
         _writer: Option<Writer>,
     }
 
     pub(crate) fn write_key_of(p: &Path) -> String {
-        if let Some(k) = world::with(|w| w.image.normalise(p)) {
+        if let Some(k) = world::with(|w| w.image.normalise(&w.absolute(p))) {
             return k;
         }
         // one key per file whatever the spelling: absolute below the crate directory -> relative
         let crate_dir = world::with(|w| w.image.crate_dir.clone());
+        let abs = world::with(|w| w.absolute(p));
+        let p: &Path = &abs;
         let rel: PathBuf = match p.strip_prefix(&crate_dir) {
             Ok(r) => r.to_path_buf(),
             Err(_) => p.to_path_buf(),
@@ -1570,7 +1570,7 @@ pub mod simfs {
             if w.removed.contains(key) {
                 return Some(false);
             }
-            match w.image.normalise(p) {
+            match w.image.normalise(&w.absolute(p)) {
                 Some(k) => Some(w.image.files.contains_key(&k) || w.image.dirs.contains_key(&k)),
                 None => None,
             }
@@ -1797,13 +1797,13 @@ pub mod simfs {
                 _fd: fd,
                 _writer: None,
                 data: d,
-                pos: 0,
+                cur: Arc::new(std::sync::atomic::AtomicUsize::new(0)),
+                append: false,
                 rng: if io_seed == 0 { None } else { Some(Rng::new(io_seed)) },
                 consecutive_eintr: 0,
                 write_key: None,
                 wrng: None,
                 consecutive_weintr: 0,
-                wpos: Some(0),
             })
         }
         /// `File::create`: captured, never touches the real tree
@@ -1815,6 +1815,12 @@ pub mod simfs {
         }
         pub fn options() -> OpenOptions {
             OpenOptions::new()
+        }
+        fn pos(&self) -> usize {
+            self.cur.load(std::sync::atomic::Ordering::SeqCst)
+        }
+        fn set_pos(&self, n: usize) {
+            self.cur.store(n, std::sync::atomic::Ordering::SeqCst)
         }
         fn create_with(p: &Path, truncate: bool, append: bool) -> io::Result<File> {
             let key = write_key_of(p);
@@ -1852,13 +1858,13 @@ pub mod simfs {
                 _fd: fd,
                 _writer: Some(Writer::open(&key)),
                 data: Arc::new(vec![]),
-                pos: 0,
+                cur: Arc::new(std::sync::atomic::AtomicUsize::new(0)),
+                append,
                 rng: None,
                 consecutive_eintr: 0,
                 write_key: Some(key),
                 wrng: if io_seed == 0 { None } else { Some(Rng::new(io_seed)) },
                 consecutive_weintr: 0,
-                wpos: if append { None } else { Some(0) },
             })
         }
         pub fn metadata(&self) -> io::Result<Metadata> {
@@ -1992,13 +1998,13 @@ pub mod simfs {
                 _fd: Fd::open()?,
                 _writer: self.write_key.as_deref().map(Writer::open),
                 data: self.data.clone(),
-                pos: self.pos,
+                cur: self.cur.clone(),
+                append: self.append,
                 rng: self.rng.clone(),
                 consecutive_eintr: 0,
                 write_key: self.write_key.clone(),
                 wrng: self.wrng.clone(),
                 consecutive_weintr: 0,
-                wpos: self.wpos,
             })
         }
     }
@@ -2008,20 +2014,21 @@ pub mod simfs {
             if let Some(key) = &self.write_key {
                 // a handle opened read+write: read what the file holds now
                 let cur = world::with(|w| w.written.get(key).cloned().unwrap_or_default());
-                let pos = self.pos.min(cur.len());
+                let pos = self.pos().min(cur.len());
                 let n = (cur.len() - pos).min(buf.len());
                 buf[..n].copy_from_slice(&cur[pos..pos + n]);
-                self.pos = pos + n;
+                self.set_pos(pos + n);
                 return Ok(n);
             }
-            let remaining = self.data.len() - self.pos;
+            let at = self.pos().min(self.data.len());
+            let remaining = self.data.len() - at;
             let mut n = remaining.min(buf.len());
             if let Some(rng) = self.rng.as_mut() {
                 if n > 0 && self.consecutive_eintr < 3 && rng.chance(1, 8) {
                     self.consecutive_eintr += 1;
                     world::with(|w| {
                         w.stats.eintr += 1;
-                        w.event("eintr", self.pos as u64, 0);
+                        w.event("eintr", at as u64, 0);
                     });
                     return Err(io::Error::new(io::ErrorKind::Interrupted, "simulated EINTR"));
                 }
@@ -2031,11 +2038,11 @@ pub mod simfs {
                     world::with(|w| w.stats.short_reads += 1);
                 }
             }
-            buf[..n].copy_from_slice(&self.data[self.pos..self.pos + n]);
-            self.pos += n;
+            buf[..n].copy_from_slice(&self.data[at..at + n]);
+            self.set_pos(at + n);
             world::with(|w| {
                 w.stats.bytes_read += n as u64;
-                w.event("fread", self.pos as u64, n as u64);
+                w.event("fread", (at + n) as u64, n as u64);
             });
             Ok(n)
         }
@@ -2065,7 +2072,7 @@ pub mod simfs {
                 Gate::Torn(m) => (m.min(n), true),
             };
             let data = &buf[..m];
-            let wpos = self.wpos;
+            let wpos = if self.append { None } else { Some(self.pos()) };
             let end = world::with(|w| {
                 w.touch(&key);
                 let f = w.written.entry(key).or_default();
@@ -2075,8 +2082,8 @@ pub mod simfs {
                 f.extend_from_slice(&data[overlap..]);
                 at + data.len()
             });
-            if let Some(p) = self.wpos.as_mut() {
-                *p = end;
+            if !self.append {
+                self.set_pos(end);
             }
             if die {
                 crash();
@@ -2092,7 +2099,7 @@ pub mod simfs {
         fn seek(&mut self, s: io::SeekFrom) -> io::Result<u64> {
             if let Some(key) = &self.write_key {
                 let len = world::with(|w| w.written.get(key).map(|d| d.len()).unwrap_or(0));
-                let cur = self.wpos.unwrap_or(len);
+                let cur = if self.append { len } else { self.pos() };
                 let new = match s {
                     io::SeekFrom::Start(o) => o as i128,
                     io::SeekFrom::End(o) => len as i128 + o as i128,
@@ -2101,22 +2108,19 @@ pub mod simfs {
                 if new < 0 {
                     return Err(io::Error::new(io::ErrorKind::InvalidInput, "negative seek"));
                 }
-                if self.wpos.is_some() {
-                    self.wpos = Some(new as usize);
-                }
-                self.pos = new as usize;
+                self.set_pos(new as usize);
                 return Ok(new as u64);
             }
             let new = match s {
                 io::SeekFrom::Start(o) => o as i128,
                 io::SeekFrom::End(o) => self.data.len() as i128 + o as i128,
-                io::SeekFrom::Current(o) => self.pos as i128 + o as i128,
+                io::SeekFrom::Current(o) => self.pos() as i128 + o as i128,
             };
             if new < 0 {
                 return Err(io::Error::new(io::ErrorKind::InvalidInput, "negative seek"));
             }
-            self.pos = (new as usize).min(self.data.len());
-            Ok(self.pos as u64)
+            self.set_pos((new as usize).min(self.data.len()));
+            Ok(self.pos() as u64)
         }
     }
 }
@@ -2269,7 +2273,31 @@ pub mod simenv {
         vec![].into_iter()
     }
     pub fn current_dir() -> std::io::Result<super::OutPathBuf> {
-        Ok(world::with(|w| w.image.crate_dir.clone()).into())
+        Ok(world::with(|w| w.cwd.clone()).into())
+    }
+    /// the working directory is the simulated process's (the simulator's own never moves)
+    pub fn set_current_dir<P: AsRef<std::path::Path>>(p: P) -> std::io::Result<()> {
+        let m = super::simfs::stat(p.as_ref())?;
+        if !m.is_dir() {
+            return Err(std::io::Error::new(std::io::ErrorKind::Other, "Not a directory"));
+        }
+        world::with(|w| {
+            let abs = w.absolute(p.as_ref());
+            // lexical clean-up of `.` and `..`
+            let mut out = std::path::PathBuf::new();
+            for c in abs.components() {
+                match c {
+                    std::path::Component::CurDir => {}
+                    std::path::Component::ParentDir => {
+                        out.pop();
+                    }
+                    other => out.push(other.as_os_str()),
+                }
+            }
+            w.cwd = out;
+            w.event("chdir", 0, 0);
+        });
+        Ok(())
     }
     /// where cargo puts the generator binaries of the repository workspace
     pub fn current_exe() -> std::io::Result<super::OutPathBuf> {
@@ -3245,6 +3273,68 @@ pub mod simtime {
         fn sub(self, d: Duration) -> Instant {
             Instant(self.0.saturating_sub(d.as_nanos() as u64))
         }
+    }
+}
+
+/// `LocalKey<RefCell<T>>` / `LocalKey<Cell<T>>` conveniences of std (`with_borrow`, `take`, `set`,
+/// `replace`, `get`) that the engine's `LocalKey` lacks; brought into scope in the generator modules.
+pub trait LocalKeyRefCellExt<T: 'static> {
+    fn with_borrow<F: FnOnce(&T) -> R, R>(&'static self, f: F) -> R;
+    fn with_borrow_mut<F: FnOnce(&mut T) -> R, R>(&'static self, f: F) -> R;
+    fn set(&'static self, value: T);
+    fn take(&'static self) -> T
+    where
+        T: Default;
+    fn replace(&'static self, value: T) -> T;
+}
+impl<T: 'static> LocalKeyRefCellExt<T> for shuttle::thread::LocalKey<std::cell::RefCell<T>> {
+    fn with_borrow<F: FnOnce(&T) -> R, R>(&'static self, f: F) -> R {
+        self.with(|c| f(&c.borrow()))
+    }
+    fn with_borrow_mut<F: FnOnce(&mut T) -> R, R>(&'static self, f: F) -> R {
+        self.with(|c| f(&mut c.borrow_mut()))
+    }
+    fn set(&'static self, value: T) {
+        self.with(|c| *c.borrow_mut() = value)
+    }
+    fn take(&'static self) -> T
+    where
+        T: Default,
+    {
+        self.with(|c| c.take())
+    }
+    fn replace(&'static self, value: T) -> T {
+        self.with(|c| c.replace(value))
+    }
+}
+pub trait LocalKeyCellExt<T: 'static> {
+    fn set(&'static self, value: T);
+    fn get(&'static self) -> T
+    where
+        T: Copy;
+    fn take(&'static self) -> T
+    where
+        T: Default;
+    fn replace(&'static self, value: T) -> T;
+}
+impl<T: 'static> LocalKeyCellExt<T> for shuttle::thread::LocalKey<std::cell::Cell<T>> {
+    fn set(&'static self, value: T) {
+        self.with(|c| c.set(value))
+    }
+    fn get(&'static self) -> T
+    where
+        T: Copy,
+    {
+        self.with(|c| c.get())
+    }
+    fn take(&'static self) -> T
+    where
+        T: Default,
+    {
+        self.with(|c| c.take())
+    }
+    fn replace(&'static self, value: T) -> T {
+        self.with(|c| c.replace(value))
     }
 }
 
